@@ -89,6 +89,10 @@ def _score_table(cx: Cx):
             continue
         p = hits[0]
         v = p.last.data.get('value') if p.end == 'return' else None
+        # `from statistics import mean; mean(x)` is `statistics.mean(x)`
+        if isinstance(v, App) and v.fn == 'call' and v.args and isinstance(v.args[0], Sym) and '.' in v.args[0].name and not v.kw:
+            mod_, _, f_ = v.args[0].name.rpartition('.')
+            v = App('.' + f_, (Sym(mod_),) + tuple(v.args[1:]))
         if p.end == 'return' and v in want:
             cx.ok('R-EXH', f"ScoreMode.{name} -> {v!r}", where=cx.where(fn, p.last.line), function=fn.qualname)
         else:
